@@ -238,9 +238,13 @@ def run_suite(name, tier, seed, fp):
 def parse_rhs(r):
     """-> dict with 'cls' in ok|err|PANIC|FAULT|MEMFAULT|? and the fields"""
     d = {}
-    if r.endswith(" OUTSIDE-WRITTEN"):
-        d["outside"] = True
-        r = r[: -len(" OUTSIDE-WRITTEN")]
+    for _ in range(2):
+        if r.endswith(" OUTSIDE-WRITTEN"):
+            d["outside"] = True
+            r = r[: -len(" OUTSIDE-WRITTEN")]
+        if r.endswith(" WRAP-DIFF"):
+            d["wrapdiff"] = True
+            r = r[: -len(" WRAP-DIFF")]
     if r == "":
         d["cls"] = "MEMFAULT"
     elif r.startswith("PANIC") or r == "HANG":
@@ -374,6 +378,8 @@ def proj_C02(lhs, o, t):
 def oracle_C02(lhs, o, t, om):
     if o["cls"] in ("MEMFAULT", "PANIC") and om.get("cls") == "err":
         return f"the process aborted while this slice was mapped and read through the accessors; the reference rejects it ({om.get('kind')}@{om.get('pos')}), so it was either accepted or validation itself crashed"
+    if o.get("wrapdiff"):
+        return "FlatWrap::from_wrapped_bytes over the same bytes answered differently from from_bytes (acceptance, error, size() or as_bytes())"
     if o["cls"] != "ok":
         return None
     n = bytes_len(lhs)
@@ -449,6 +455,56 @@ def expected_offsets(desc, w):
         return [doff + o for o in c_offsets(v[1:])[0]]
     return None
 
+def _top_tokens(w):
+    """tokens of a walk at nesting depth 0"""
+    out, cur, depth = [], "", 0
+    for ch in w:
+        if ch in "([<": depth += 1
+        if ch in ")]>": depth -= 1
+        if ch == " " and depth == 0:
+            out.append(cur); cur = ""
+        else:
+            cur += ch
+    if cur: out.append(cur)
+    return out
+def _lmax(l):
+    return 2 ** (8 * _len(l)[0]) - 1
+def expected_cap(t, room):
+    """capacity of a FlatVec / FlatString mapped from `room` bytes, by the documented rule: everything behind the length field
+    (placed as C places it before the data) that the alignment leaves, counted in elements, at most what the length type can count"""
+    if isinstance(t, str) or room is None: return None
+    if t[0] == "vec":
+        ls, la = _len(t[2]); ea, es = c_align(t[1]), c_size(t[1])
+        doff = max(ls, ea)
+        if room < doff: return None
+        if es == 0: return None
+        return min((room - doff) // max(la, ea) * max(la, ea) // es, _lmax(t[2]))
+    if t[0] == "str":
+        ls, la = _len(t[1])
+        if room < ls: return None
+        return min((room - ls) // la * la, _lmax(t[1]))
+    return None
+def cap_oracle(desc, w, n):
+    """(reported, expected) capacity of the top-level container, or of the container that ends an unsized struct (found at the
+    offset the C rule gives the last field), when both are known"""
+    t = _DESC_CACHE.get(desc)
+    if t is None:
+        t = _DESC_CACHE[desc] = parse_desc(desc)
+    if isinstance(t, str) or not w: return None
+    tail, room, tok = None, None, None
+    if t[0] in ("vec", "str"):
+        tail, room, tok = t, n // c_align(t) * c_align(t), w
+    elif t[0] == "us" and not isinstance(t[-1], str) and t[-1][0] in ("vec", "str") and w.startswith("(") and w.endswith(")"):
+        al = c_align(t)
+        offs, _ = c_offsets(t[1:])
+        tail, room = t[-1], n // al * al - offs[-1]
+        toks = _top_tokens(w[1:-1])
+        tok = toks[-1] if toks else None
+    if tail is None or tok is None or room is None or room < 0: return None
+    m = re.match(r"[VS](\d+)[\[:]", tok)
+    exp = expected_cap(tail, room)
+    if not m or exp is None: return None
+    return int(m.group(1)), exp
 def proj_C04(lhs, o, t):
     if o["cls"] == "ok":
         return (o.get("v"), o.get("s"), o.get("off"))
@@ -465,6 +521,9 @@ def oracle_C04(lhs, o, t):
         got = [] if o["off"] == "-" else [int(x) for x in o["off"].split(",")]
         if exp is not None and exp != got: return f"field addresses {got} (relative to the value) differ from the C layout rule {exp}"
         if t["align"] != c_align(parse_desc(t["desc"])): return f"ALIGN {t['align']} differs from the C rule {c_align(parse_desc(t['desc']))}"
+    ce = cap_oracle(t["desc"], o.get("w"), n)
+    if ce is not None and ce[0] != ce[1]:
+        return f"the container reports capacity {ce[0]}; the C layout of a {n}-byte slice leaves room for {ce[1]} (offset of the container or of its data differs from the C rule)"
     return None
 
 def proj_C05(lhs, o, t):
@@ -677,6 +736,7 @@ def proj_C20(lhs, o, t):
 def oracle_C20(lhs, o, t, om=None):
     if lhs[0] != "F": return None
     if o["cls"] in ("PANIC", "MEMFAULT"): return f"default_in_place ended with {o['cls']}"
+    if "WRAP-DIFF" in o.get("raw_tail", ""): return "FlatWrap::default_in_place over the same bytes gave a different result, different bytes or a different size() than default_in_place"
     w = oracle_need(lhs, o, t, om)
     if w: return w
     if o["cls"] == "ok":
@@ -733,6 +793,7 @@ def oracle_seq(lhs, o, t):
     if not f or not f["ok"]: return f"the bytes do not validate / re-map after the operation: {o.get('p')}"
     if content_of(o.get("p")) != o.get("abs"): return f"content {content_of(o.get('p'))} differs from the abstract sequence {o.get('abs')}"
     if "!OVER" in f["w"]: return "len > capacity"
+    if "REMAP-DIFF" in o.get("raw_tail", ""): return "the value's own bytes (as_bytes()) do not validate and re-map to the same state (extent, size(), content, capacity)"
     return None
 def proj_C11(lhs, o, t):
     return proj_ops(lhs, o, t) if lhs[0] == "O" and tkind(t) in ("vec", "str") else ()
@@ -801,8 +862,9 @@ def parse_io(r):
 def io_fields(lhs):
     f = lhs.split(" ")
     return dict(kind=f[0], tid=int(f[1]), max=int(f[2]), script=f[3], rest=f[4:])
+IO_KINDS = ["ConnectionReset", "Interrupted", "WouldBlock", "TimedOut", "BrokenPipe", "WriteZero", "UnexpectedEof", "Other", "NotConnected", "PermissionDenied", "OutOfMemory"]
 def faulty(script):
-    return any(x in ("f", "z") for x in script.split(","))
+    return any(x == "z" or x.startswith("f") for x in script.split(","))
 def norm_io(o, om):
     """sink compared with the model's padding mask"""
     if "sink" in o and "sink" in om and eq_masked(o["sink"], om["sink"]):
@@ -860,7 +922,7 @@ def post_io(props_kind):
                 # the preceding line's stream holds a complete message that is malformed in content
                 if block and props_kind == "C10":
                     (sn, l, r, m, oo, tt) = block[-1]
-                    outs_ = [x for x in oo.get("outs", []) if x != "read"]
+                    outs_ = [x for x in oo.get("outs", []) if not x.startswith("read")]
                     if not outs_ or not outs_[0].startswith("parse"):
                         out.append((sn, l, r, m, f"the stream starts with a complete message that is malformed in content, but recv answered {outs_[:1]} instead of a parse error (it kept asking for more input)"))
                 continue
@@ -913,17 +975,23 @@ def check_io_line(kind, lhs, o, want, sizes, stream):
             if any(r == "STUCK" for r in outs): return "a send future was never woken again"
             # every failing pipe outcome the sender consumed surfaced as an error (it is not swallowed and retried)
             ent = script.split(",")[: int(o.get("calls", 0))]
-            nfault = sum(1 for x in ent if x == "f" or (x == "z" and k == "S"))
+            nfault = sum(1 for x in ent if x.startswith("f") or (x == "z" and k == "S"))
             nerr = sum(1 for r in outs if r.startswith("err"))
             if k == "S" and nerr != nfault: return f"{nfault} failing pipe outcome(s) were consumed but {nerr} send(s) reported an error: {outs}"
             if k == "AS" and nerr < nfault: return f"{nfault} failing pipe outcome(s) were consumed but only {nerr} send(s) reported an error: {outs}"
+            # the error a send reports is the error of the failing pipe call (`C09_send_error_is_first_failure`), whatever its kind
+            if k == "S":
+                fk = [("BrokenPipe" if x == "z" else IO_KINDS[int(x[1:] or 0)]) for x in ent if x.startswith("f") or x == "z"]
+                ek = [r[4:] for r in outs if r.startswith("err:")]
+                if fk != ek: return f"the pipe failed with {fk}, the sends reported {ek}"
+            if any(r.startswith("GUARD-DIFF") for r in outs): return f"a send guard shows different values through its accessors: {outs}"
         return None
     if k in ("R", "AR"):
         if any(x in ("PANIC", "STUCK", "BLOCKED") for x in outs): return f"recv: {[x for x in outs if x in ('PANIC', 'STUCK', 'BLOCKED')][0]}"
         hexlen_stream = 0 if f["rest"][1] == "-" else len(f["rest"][1]) // 2
         if int(o.get("reads", 0)) > nscript + hexlen_stream + int(f["rest"][0]) + 8: return f"{o.get('reads')} reads: the receiver spins"
         if f["rest"][1] == stream:
-            msgs = [x for x in outs if x != "read"]
+            msgs = [x for x in outs if not x.startswith("read")]
             if not faulty(script):
                 if kind in ("C07", "C08") and msgs != want + ["closed"]: return f"received {msgs}, sent {want}"
             elif kind == "C09":
@@ -931,6 +999,12 @@ def check_io_line(kind, lhs, o, want, sizes, stream):
                 body = [x for x in msgs if x.startswith("msg")]
                 if body != want[:len(body)]: return f"after pipe faults received {body}, sent {want}: loss, duplication or reordering"
                 if "z" not in script.split(",") and msgs and msgs[-1] == "closed" and len(body) != len(want): return f"Closed after {len(body)} of {len(want)} messages although the stream did not end"
+                # a read error reported by recv is the error of the failing read (`C09_recv_error_is_pipes_error`)
+                nreads = int(o.get("reads", 0))
+                ent = [x for x in script.split(",") if x != "p"] if k == "AR" else script.split(",")
+                fk = [IO_KINDS[int(x[1:] or 0)] for x in ent[:nreads] if x.startswith("f")] if k == "R" else None
+                ek = [x[5:] for x in outs if x.startswith("read:")]
+                if fk is not None and fk != ek: return f"the pipe's reads failed with {fk}, recv reported {ek}"
         return None
     if k == "AP" and kind == "C08":
         if o.get("panic") != "0": return "panic in the sender or receiver task"
@@ -1107,7 +1181,7 @@ PROPS = {
     "C14": dict(module="FV.Props.C14", theorems=["FV.Props.C14_write_frame", "FV.Props.C14_item_edit_frame", "FV.Props.C14_emplace_inside", "FV.Props.C14_assign_frame", "FV.Props.C14_truncate_frame", "FV.Props.C14_field_write_frame", "FV.Props.posList_disjoint"], suites=["emplace", "ops"], proj=proj_C14, oracle=oracle_C14),
     "C07": dict(module="FV.Props.C07", theorems=["FV.Props.C07_sender_delivers", "FV.Props.C07_receiver_delivers", "FV.Props.C07_receiver_delivers_anywhere", "FV.Props.C07_emplaced_is_deliverable", "FV.Props.C07_retain_returns_same", "FV.Ty.addrIndep"], suites=["io"], proj=proj_C07, oracle=oracle_io_basic, post=post_io("C07")),
     "C08": dict(module="FV.Props.C08", theorems=["FV.Props.C08_sender_refines_blocking", "FV.Props.C08_receiver_refines_blocking", "FV.Props.C08_pipe_fifo", "FV.Props.C08_pipe_fair_delivers"], suites=["aio"], proj=proj_C08, oracle=oracle_io_basic, post=post_io("C08")),
-    "C09": dict(module="FV.Props.C09", theorems=["FV.Props.C09_send_fault", "FV.Props.C09_session_sink_shape", "FV.Props.C09_read_error_keeps_bytes", "FV.Props.C09_receiver_retries_deliver"], suites=["io", "aio"], proj=proj_C09, oracle=oracle_io_basic, post=post_io("C09")),
+    "C09": dict(module="FV.Props.C09", theorems=["FV.Props.C09_send_fault", "FV.Props.C09_session_sink_shape", "FV.Props.C09_read_error_keeps_bytes", "FV.Props.C09_receiver_retries_deliver", "FV.Props.C09_send_error_is_first_failure", "FV.Props.C09_send_kind_blind", "FV.Props.C09_async_poll_kind_blind", "FV.Props.C09_recv_error_is_pipes_error", "FV.Props.C09_recv_kind_blind"], suites=["io", "aio"], proj=proj_C09, oracle=oracle_io_basic, post=post_io("C09")),
     "C10": dict(module="FV.Props.C10", theorems=["FV.Props.C10_recv_never_faults", "FV.Props.C10_flex_bad_offset_is_content_error", "FV.Props.C10_content_error_is_final", "FV.Props.C10_stream_goes_bad", "FV.Props.C10_stream_goes_bad_anywhere"], suites=["io", "aio"], proj=proj_C10, oracle=oracle_C10, post=post_io("C10")),
     "C16": dict(module="FV.Props.C16", theorems=["FV.Props.C16_size", "FV.Props.C16_byte_order", "FV.Props.C16_native_roundtrip", "FV.Props.C16_bytes_roundtrip", "FV.Props.C16_eq_iff", "FV.Props.C16_delegates", "FV.Props.C16_bool_validate"], suites=["portable"], proj=proj_C16, oracle=oracle_C16),
     "C17": dict(module="FV.Props.C17Ser", theorems=["FV.Props.C17_align_one", "FV.Props.C17_no_padding", "FV.Props.C17_image_is_serialisation", "FV.emplaceU_ser", "FV.flexFill_ser"], suites=["emplace", "bytes"], proj=proj_C17, oracle=oracle_C17, post=post_C17),
